@@ -719,3 +719,136 @@ package core
 //@   requires held(s) && intValid(s)
 //@   modifies s.currentState, s.stateLastModified, s.errorType, mapof(s.events)
 //@   ensures held(s) && intValid(s)
+
+// ---------------------------------------------------------------------------------------------
+// C13: registration service. Names are unique across both kinds, internal registration is limited and closes
+// when the service is turned off.
+// ---------------------------------------------------------------------------------------------
+
+//@ monitor registrationServiceImpl s
+//@   lock s.mutex
+//@   protects runtime, state
+//@   invariant [names-unique-across-kinds] forall n string :: !(has(s.externalAgents.byName, n) && has(s.internalAgents.byName, n))
+
+//@ spec regWired(s *registrationServiceImpl) bool = s.mutex != nil && isInitFlow(s.initFlow) && isInvokeFlow(s.invokeFlow) && flowsDisjoint(s.initFlow.(*initFlowSynchronizationImpl), s.invokeFlow.(*invokeFlowSynchronizationImpl)) && s.externalAgents.byName != nil && s.externalAgents.byID != nil && s.internalAgents.byName != nil && s.internalAgents.byID != nil && s.externalAgents.byName != s.externalAgents.byID && s.internalAgents.byName != s.internalAgents.byID && s.externalAgents.byName != s.internalAgents.byName && s.externalAgents.byName != s.internalAgents.byID && s.externalAgents.byID != s.internalAgents.byName && s.externalAgents.byID != s.internalAgents.byID
+//@ typeinv registrationServiceImpl s
+//@   inv regWired(s)
+
+//@ spec extMapUnchanged(m *ExternalAgentsMap) bool = forall k string :: has(m.byName, k) == old(has(m.byName, k)) && m.byName[k] == old(m.byName[k]) && has(m.byID, k) == old(has(m.byID, k)) && m.byID[k] == old(m.byID[k])
+//@ spec intMapUnchanged(m *InternalAgentsMap) bool = forall k string :: has(m.byName, k) == old(has(m.byName, k)) && m.byName[k] == old(m.byName[k]) && has(m.byID, k) == old(has(m.byID, k)) && m.byID[k] == old(m.byID[k])
+
+//@ func (*ExternalAgentsMap).FindByName
+//@   modifies nothing
+//@   ensures [lookup] (found <==> has(m.byName, name)) && (found ==> agent == m.byName[name])
+//@ func (*ExternalAgentsMap).FindByID
+//@   modifies nothing
+//@   ensures [lookup] (found <==> has(m.byID, uuidString(id))) && (found ==> agent == m.byID[uuidString(id)])
+//@ func (*ExternalAgentsMap).Size
+//@   modifies nothing
+//@   ensures r0 == len(m.byName) && r0 >= 0
+//@ func (*ExternalAgentsMap).Insert
+//@   requires a != nil && m.byName != nil && m.byID != nil && m.byName != m.byID
+//@   modifies mapof(m.byName), mapof(m.byID)
+//@   ensures [name-collision] old(has(m.byName, a.Name)) ==> r0 == ErrAgentNameCollision && extMapUnchanged(m)
+//@   ensures [id-collision] !old(has(m.byName, a.Name)) && old(has(m.byID, uuidString(a.ID))) ==> r0 == ErrAgentIDCollision && extMapUnchanged(m)
+//@   ensures [inserted] !old(has(m.byName, a.Name)) && !old(has(m.byID, uuidString(a.ID))) ==> r0 == nil && has(m.byName, a.Name) && m.byName[a.Name] == a && has(m.byID, uuidString(a.ID)) && m.byID[uuidString(a.ID)] == a
+//@   ensures [others-unchanged] forall k string :: k != a.Name ==> has(m.byName, k) == old(has(m.byName, k)) && m.byName[k] == old(m.byName[k])
+//@   ensures [size] r0 == nil ==> len(m.byName) == old(len(m.byName)) + 1
+//@ func (*ExternalAgentsMap).Clear
+//@   modifies m.byName, m.byID
+//@   ensures [empty] m.byName != nil && m.byID != nil && fresh(m.byName) && fresh(m.byID) && m.byName != m.byID && (forall k string :: !has(m.byName, k) && !has(m.byID, k)) && len(m.byName) == 0
+//@ func NewExternalAgentsMap
+//@   modifies nothing
+//@   ensures [empty] r0.byName != nil && r0.byID != nil && fresh(r0.byName) && fresh(r0.byID) && r0.byName != r0.byID && (forall k string :: !has(r0.byName, k) && !has(r0.byID, k)) && len(r0.byName) == 0
+
+//@ func (*InternalAgentsMap).FindByName
+//@   modifies nothing
+//@   ensures [lookup] (found <==> has(m.byName, name)) && (found ==> agent == m.byName[name])
+//@ func (*InternalAgentsMap).FindByID
+//@   modifies nothing
+//@   ensures [lookup] (found <==> has(m.byID, uuidString(id))) && (found ==> agent == m.byID[uuidString(id)])
+//@ func (*InternalAgentsMap).Size
+//@   modifies nothing
+//@   ensures r0 == len(m.byName) && r0 >= 0
+//@ func (*InternalAgentsMap).Insert
+//@   requires a != nil && m.byName != nil && m.byID != nil && m.byName != m.byID
+//@   modifies mapof(m.byName), mapof(m.byID)
+//@   ensures [name-collision] old(has(m.byName, a.Name)) ==> r0 == ErrAgentNameCollision && intMapUnchanged(m)
+//@   ensures [id-collision] !old(has(m.byName, a.Name)) && old(has(m.byID, uuidString(a.ID))) ==> r0 == ErrAgentIDCollision && intMapUnchanged(m)
+//@   ensures [inserted] !old(has(m.byName, a.Name)) && !old(has(m.byID, uuidString(a.ID))) ==> r0 == nil && has(m.byName, a.Name) && m.byName[a.Name] == a && has(m.byID, uuidString(a.ID)) && m.byID[uuidString(a.ID)] == a
+//@   ensures [others-unchanged] forall k string :: k != a.Name ==> has(m.byName, k) == old(has(m.byName, k)) && m.byName[k] == old(m.byName[k])
+//@   ensures [size] r0 == nil ==> len(m.byName) == old(len(m.byName)) + 1
+//@ func (*InternalAgentsMap).Clear
+//@   modifies m.byName, m.byID
+//@   ensures [empty] m.byName != nil && m.byID != nil && fresh(m.byName) && fresh(m.byID) && m.byName != m.byID && (forall k string :: !has(m.byName, k) && !has(m.byID, k)) && len(m.byName) == 0
+//@ func NewInternalAgentsMap
+//@   modifies nothing
+//@   ensures [empty] r0.byName != nil && r0.byID != nil && fresh(r0.byName) && fresh(r0.byID) && r0.byName != r0.byID && (forall k string :: !has(r0.byName, k) && !has(r0.byID, k)) && len(r0.byName) == 0
+
+// the number of agents is the number of names in both maps (counted through Visit callbacks: trusted, not verified)
+//@ func (*registrationServiceImpl).countAgentsUnsafe
+//@   trusted the count is accumulated by callbacks passed to Visit; higher-order iteration is outside the verified subset
+//@   modifies nothing
+//@   ensures r0 == len(s.externalAgents.byName) + len(s.internalAgents.byName)
+
+//@ func (*registrationServiceImpl).CreateExternalAgent
+//@   modifies mapof(s.externalAgents.byName), mapof(s.externalAgents.byID)
+//@   ensures [closed] old(s.state) != registrationServiceOn ==> r0 == nil && r1 == ErrRegistrationServiceOff && extMapUnchanged(s.externalAgents)
+//@   ensures [name-taken-by-internal] old(s.state) == registrationServiceOn && old(has(s.internalAgents.byName, agentName)) ==> r0 == nil && r1 == ErrAgentNameCollision && extMapUnchanged(s.externalAgents)
+//@   ensures [name-taken-by-external] old(s.state) == registrationServiceOn && old(has(s.externalAgents.byName, agentName)) ==> r0 == nil && r1 == ErrAgentNameCollision && extMapUnchanged(s.externalAgents)
+//@   ensures [created] r1 == nil ==> r0 != nil && r0.Name == agentName && has(s.externalAgents.byName, agentName) && s.externalAgents.byName[agentName] == r0 && r0.currentState == r0.StartedState
+//@   ensures [others-unchanged] forall k string :: k != agentName ==> has(s.externalAgents.byName, k) == old(has(s.externalAgents.byName, k))
+
+//@ func (*registrationServiceImpl).CreateInternalAgent
+//@   modifies mapof(s.internalAgents.byName), mapof(s.internalAgents.byID)
+//@   ensures [closed] old(s.state) != registrationServiceOn ==> r0 == nil && r1 == ErrRegistrationServiceOff && intMapUnchanged(s.internalAgents)
+//@   ensures [limit-ten] old(s.state) == registrationServiceOn && old(len(s.externalAgents.byName)) + old(len(s.internalAgents.byName)) >= 10 ==> r0 == nil && r1 == ErrTooManyExtensions && intMapUnchanged(s.internalAgents)
+//@   ensures [name-taken-by-external] old(s.state) == registrationServiceOn && old(has(s.externalAgents.byName, agentName)) ==> r0 == nil && r1 != nil && intMapUnchanged(s.internalAgents)
+//@   ensures [name-taken-by-internal] old(s.state) == registrationServiceOn && old(has(s.internalAgents.byName, agentName)) ==> r0 == nil && r1 != nil && intMapUnchanged(s.internalAgents)
+//@   ensures [created] r1 == nil ==> r0 != nil && r0.Name == agentName && has(s.internalAgents.byName, agentName) && s.internalAgents.byName[agentName] == r0 && r0.currentState == r0.StartedState && old(len(s.externalAgents.byName)) + old(len(s.internalAgents.byName)) < 10
+//@   ensures [others-unchanged] forall k string :: k != agentName ==> has(s.internalAgents.byName, k) == old(has(s.internalAgents.byName, k))
+//@ const MaxAgentsAllowed == 10
+
+//@ func (*registrationServiceImpl).TurnOff
+//@   modifies s.state
+//@   ensures [off] s.state == registrationServiceOff
+//@ func (*registrationServiceImpl).GetRuntime
+//@   modifies nothing
+//@   ensures r0 == s.runtime
+//@ func (*registrationServiceImpl).PreregisterRuntime
+//@   modifies s.runtime
+//@   ensures [closed] old(s.state) != registrationServiceOn ==> r0 == ErrRegistrationServiceOff && unchanged(s.runtime)
+//@   ensures [registered] old(s.state) == registrationServiceOn ==> r0 == nil && s.runtime == r
+//@ func (*registrationServiceImpl).GetRegisteredAgentsSize
+//@   modifies nothing
+//@   ensures [sum] len(s.externalAgents.byName) + len(s.internalAgents.byName) <= 65535 ==> r0 == len(s.externalAgents.byName) + len(s.internalAgents.byName)
+//@ func (*registrationServiceImpl).CountAgents
+//@   modifies nothing
+//@   ensures r0 == len(s.externalAgents.byName) + len(s.internalAgents.byName)
+//@ func (*registrationServiceImpl).FindExternalAgentByName
+//@   modifies nothing
+//@   ensures [lookup] (found <==> has(s.externalAgents.byName, name)) && (found ==> agent == s.externalAgents.byName[name])
+//@ func (*registrationServiceImpl).FindInternalAgentByName
+//@   modifies nothing
+//@   ensures [lookup] (found <==> has(s.internalAgents.byName, name)) && (found ==> agent == s.internalAgents.byName[name])
+//@ func (*registrationServiceImpl).FindExternalAgentByID
+//@   modifies nothing
+//@   ensures [lookup] (found <==> has(s.externalAgents.byID, uuidString(agentID))) && (found ==> agent == s.externalAgents.byID[uuidString(agentID)])
+//@ func (*registrationServiceImpl).FindInternalAgentByID
+//@   modifies nothing
+//@   ensures [lookup] (found <==> has(s.internalAgents.byID, uuidString(agentID))) && (found ==> agent == s.internalAgents.byID[uuidString(agentID)])
+//@ func (*registrationServiceImpl).SetFunctionMetadata
+//@   modifies s.functionMetadata
+//@   ensures [stored] s.functionMetadata == metadata
+//@ func (*registrationServiceImpl).GetFunctionMetadata
+//@   modifies nothing
+//@   ensures [same-as-stored] r0 == s.functionMetadata
+
+// C08: clearing the registration service re-establishes the state of a new one
+//@ func (*registrationServiceImpl).Clear
+//@   modifies s.runtime, s.state, s.cancelOnce, s.externalAgents.byName, s.externalAgents.byID, s.internalAgents.byName, s.internalAgents.byID
+//@   ensures [like-new] s.runtime == nil && s.state == registrationServiceOn && (forall k string :: !has(s.externalAgents.byName, k) && !has(s.externalAgents.byID, k) && !has(s.internalAgents.byName, k) && !has(s.internalAgents.byID, k)) && len(s.externalAgents.byName) == 0 && len(s.internalAgents.byName) == 0
+//@ func NewRegistrationService
+//@   requires isInitFlow(initFlow) && isInvokeFlow(invokeFlow) && flowsDisjoint(initFlow.(*initFlowSynchronizationImpl), invokeFlow.(*invokeFlowSynchronizationImpl))
+//@   modifies nothing
+//@   ensures [new] typeis(r0, *registrationServiceImpl) && fresh(r0) && r0.(*registrationServiceImpl).runtime == nil && r0.(*registrationServiceImpl).state == registrationServiceOn && (forall k string :: !has(r0.(*registrationServiceImpl).externalAgents.byName, k) && !has(r0.(*registrationServiceImpl).internalAgents.byName, k)) && len(r0.(*registrationServiceImpl).externalAgents.byName) == 0 && len(r0.(*registrationServiceImpl).internalAgents.byName) == 0
